@@ -245,6 +245,7 @@ def _c02() -> List[Obl]:
     out = _verus_reader_unary("C02") + _verus_bitreader_unary("C02") + _verus_reader_bits("C02", ["read_bits", "peek_bits", "skip_bits_after_peek", "refill"])
     out += _reader("C02", r"c02|confirm", ["new", "read_bits", "peek_bits", "skip_bits_after_peek", "read_unary.K2", "read_unary.K4",
                                  "skip_bits", "skip_bits.K2", "skip_bits.K4", "clone", "confirm"])
+    out += _verus_mem_words("C02", fns=["read_word_inf"], words=["u8", "u16", "u32", "u64"])
     # zero extension of the memory backend (contract of MemWordReader<_,_,true>)
     for w in ["u8", "u64"]:
         out.append(Obl(id=f"c02.zero_extension.{w}", prop="C02", engine="kani", target=f"obl_c13::{w}_::reader_inf_k3", kind="bounded",
@@ -266,6 +267,8 @@ def _c07() -> List[Obl]:
                        bound="Cursor over at most 2 words plus a partial tail", fns=["WordAdapter::{word_pos,set_word_pos}"]))
     out.append(Obl(id="c07.backend.writer_vec.u8", prop="C07", engine="kani", target="obl_c13::u8_::writer_vec_len2_borrowed", kind="bounded",
                    bound="vector of length 2", fns=["MemWordWriterVec::{word_pos,set_word_pos,read_word}"]))
+    out += _verus_mem_words("C07", fns=["word_pos_inf", "set_word_pos_inf", "word_pos_strict", "set_word_pos_strict", "word_pos_vec", "set_word_pos_vec",
+                                        "word_pos_slice", "set_word_pos_slice"], words=["u8", "u16", "u32", "u64"])
     return out
 
 
@@ -278,11 +281,34 @@ def _c09_impl() -> List[Obl]:
                        bound="array length <= 3", fns=["MemWordReader<_,_,false>::read_word", "MemWordReader<_,_,false>::set_word_pos"]))
         out.append(Obl(id=f"c09.zero_extended_backend.{w}", prop="C09", engine="kani", target=f"obl_c13::{w}_::reader_inf_k3", kind="bounded",
                        bound="array length <= 3", fns=["MemWordReader<_,_,true>::read_word"]))
+    out += _verus_mem_words("C09", fns=["read_word_strict", "read_word_inf", "read_word_vec", "read_word_slice"], words=["u8", "u16", "u32", "u64"])
+    return out
+
+
+MW_FNS = {
+    "read_word_inf": "MemWordReader<_,_,true>::read_word", "word_pos_inf": "MemWordReader<_,_,true>::word_pos", "set_word_pos_inf": "MemWordReader<_,_,true>::set_word_pos",
+    "read_word_strict": "MemWordReader<_,_,false>::read_word", "word_pos_strict": "MemWordReader<_,_,false>::word_pos", "set_word_pos_strict": "MemWordReader<_,_,false>::set_word_pos",
+    "write_word_vec": "MemWordWriterVec::write_word", "read_word_vec": "MemWordWriterVec::read_word", "word_pos_vec": "MemWordWriterVec::word_pos", "set_word_pos_vec": "MemWordWriterVec::set_word_pos",
+    "write_word_slice": "MemWordWriterSlice::write_word", "read_word_slice": "MemWordWriterSlice::read_word", "word_pos_slice": "MemWordWriterSlice::word_pos",
+    "set_word_pos_slice": "MemWordWriterSlice::set_word_pos",
+}
+
+
+def _verus_mem_words(prop: str, fns=None, words=None) -> List[Obl]:
+    """The in-memory word streams against the array-plus-cursor model for arrays of every length (Verus, one unit per word type)."""
+    out = []
+    pl = prop.lower()
+    for w in (words or WWORDS):
+        for fn, real in MW_FNS.items():
+            if fns and fn not in fns:
+                continue
+            out.append(Obl(id=f"{pl}.verus.mem.{fn}.{w}", prop=prop, engine="verus", target=f"mem_words@W={w}:{fn}", fns=[real + f" (W = {w})"],
+                           note="real text with the storage parameter instantiated to the slice / vector itself; arrays of every length, every cursor"))
     return out
 
 
 def _c13() -> List[Obl]:
-    out = []
+    out = _verus_mem_words("C13")
     for w in WWORDS:
         for k in (3, 6):
             tier = "quick" if (k == 3 and w in QUICK_W) else "thorough"
